@@ -1,5 +1,6 @@
 """C03 — words are interned: one String node per distinct content, content preserved."""
 import random
+import re
 from common import *
 import facts as factsmod
 
@@ -34,7 +35,7 @@ def gen_stream(tier, seed, known, fams=()):
         for w in reversed(fam):
             H(w)
     # random short words with many repeats
-    nshort = 1500 if tier == "quick" else 20000
+    nshort = 1500 if tier == "quick" else 3000
     pool = []
     for i in range(nshort):
         if pool and rnd.random() < 0.4:
@@ -79,7 +80,84 @@ def check(res):
     known = f["words"]["known_words"]["rows"]
     import hashcollide
     fams, hnote = hashcollide.confirmed_families(res.seed, 12 if res.tier == "quick" else 200)
-    ws = gen_stream(res.tier, res.seed, known, fams)
+    if res.tier == "quick":
+        streams = [gen_stream("quick", res.seed, known, fams)]
+    else:
+        # several independent streams (a fresh pool each) side by side rather than one very long one: the extracted model's cost
+        # grows much faster than the stream
+        streams = [gen_stream("quick" if k else "thorough-big", res.seed * 100 + k, known, fams[k * 12:(k + 1) * 12]) for k in range(16)]
+    import concurrent.futures as cf
+    shared = {"keys": set(), "lens": {}, "first_n": 0, "tags": set(), "validated": 0, "n": 0}
+    with cf.ThreadPoolExecutor(max_workers=NCPU) as ex:
+        list(ex.map(lambda ws: one_stream(res, ws, known, exe, gen, coq_failed, shared), streams))
+    keys, lens = shared["keys"], shared["lens"]
+    ws = streams[0]
+    huge_words(res, exe, keys, "oracle:")
+    seen_k, kept = {}, []
+    for v in res.violations:                      # the same key from several streams counts once (at most 3 for model differences)
+        seen_k[v["key"]] = seen_k.get(v["key"], 0) + 1
+        if seen_k[v["key"]] <= (3 if v["key"].startswith("diff:") else 1):
+            kept.append(v)
+    res.violations[:] = kept
+    if coq_failed and not keys:
+        res.violation("coq:Properties_C03.v", "proof obligation no longer checks",
+                      {"theorem_file": "Properties_C03.v", "error": coq_error_excerpt(out, "Properties_C03.v")}, no_input=True)
+    tags = ",".join(sorted(shared["tags"]))
+    res.coverage.update({
+        "evaluations": shared["n"], "distinct_nontrivial": shared["first_n"],
+        "rule": "word stream: every length 0..41 and around the 8-byte inline and 16-byte granule boundaries; all 256 byte values, embedded NULs; "
+                "one-byte neighbours; every reserved word with prefix/extension/edit near misses; seeded short words with 40% repeats; generated big "
+                "words crossing pool capacity and the oversize path; repeats after pool roll-over; families of distinct words with EQUAL std::hash codes "
+                "(different lengths, strict prefixes of one another, equal lengths), each interned twice; one word of 2^31 + 8 bytes interned twice (implementation only). distinct non-trivial = distinct non-empty contents",
+        "samples": [line_of(w)[:120] for w in (ws[5], ws[60], ws[len(ws) // 2], ws[-5])],
+        "traces_validated_against_impl": shared["validated"],
+        "input_distribution": {"length_histogram_top": {str(k): v for k, v in sorted(lens.items(), key=lambda kv: -kv[1])[:12]},
+                               "max_length": max(lens) if lens else 0, "reserved_words": len(known), "total_words": shared["n"], "streams": len(streams),
+                               "equal_hash_words": hnote},
+        "model_branch_tags_hit": tags.split(","),
+    })
+    want = {"empty", "reserved", "hit", "miss", "miss-collide"}
+    if not want <= set(tags.split(",")):
+        res.notes.append("generator adequacy: intern branches never hit in the model: %s" % sorted(want - set(tags.split(","))))
+    res.assumptions += ["std::hash is an arbitrary function (the theorems quantify over every hash; the model run uses a deliberately weak one)",
+                        "real memory effects of std::copy are observed through ASan only"]
+
+
+HUGE = ["H 6162", "G 2147483656 77", "G 2147483656 77", "H 6162"]
+
+
+def huge_words(res, exe, keys, prefix):
+    """a word of 2^31 + 8 bytes (lengths that do not fit an int), interned twice, between two requests of a short word; implementation only
+    (about 9 GB resident under ASan, half a minute)"""
+    try:
+        free_kb = int(re.search(r"MemAvailable:\s+(\d+)", open("/proc/meminfo").read()).group(1))
+    except Exception:
+        free_kb = 0
+    if free_kb < 14 * 1024 * 1024:
+        res.notes.append("huge-word run skipped: less than 14 GB of memory available")
+        return
+    p = run([exe], input="\n".join(HUGE) + "\n", timeout=1800, env=SAN_ENV)
+    il = p.stdout.splitlines()
+    if p.returncode != 0 or len(il) != len(HUGE) + 1:
+        k = "crash:huge-word"
+        if k not in keys:
+            keys.add(k)
+            res.violation(k, "interning a word of 2147483656 bytes aborted (sanitizer report or crash) at request %d" % min(len(il), len(HUGE) - 1),
+                          {"stream": HUGE, "stderr": p.stderr[-3000:], "rerun": "printf '%s\\n' | build/<hash>/asan/c03_driver" % "\\n".join(HUGE)})
+        return
+    ids = [int(dict(x.split("=") for x in l.split())["id"]) for l in il[:-1]]
+    rb = il[-1].split("=", 1)[1]
+    if ids != [0, 1, 1, 0] or "0" in rb:
+        k = prefix + "huge-word"
+        if k not in keys:
+            keys.add(k)
+            res.violation(k, "a word of 2147483656 bytes interned twice between two requests of `ab`: node classes %s (expected [0, 1, 1, 0]), characters preserved: %s" % (ids, rb),
+                          {"stream": HUGE, "observed": il, "rerun": "printf '%s\\n' | build/<hash>/asan/c03_driver" % "\\n".join(HUGE)})
+
+
+def one_stream(res, ws, known, exe, gen, coq_failed, shared):
+    keys = shared["keys"]
+    lens = shared["lens"]
     # normalise generated words that coincide with literal ones: none by construction (G >= 600 bytes)
     text = "\n".join(line_of(w) for w in ws) + "\n"
     pi = run([exe], input=text, timeout=3600, env=SAN_ENV)
@@ -89,17 +167,16 @@ def check(res):
         res.violation("crash", "interning aborted (sanitizer report or crash) at word %d" % idx,
                       {"word": line_of(ws[idx])[:200], "stderr": pi.stderr[-3000:], "stream_prefix_lines": idx + 1,
                        "rerun": "c03_driver < stream (asan build)"})
+        keys.add("crash")
         return
     # oracle on the implementation alone
     first = {}
-    keys = set()
 
     def viol(key, what, replay):
         if key not in keys and len(keys) < 8:
             keys.add(key)
             res.violation("oracle:" + key, what, replay)
     id_owner = {}
-    lens = {}
     for i, (w, l) in enumerate(zip(ws, il)):
         d = dict(x.split("=") for x in l.split())
         ck = content_key(w)
@@ -144,24 +221,7 @@ def check(res):
                                   "model (Arena.v) and implementation disagree at word %d" % i,
                                   {"correspondence": "Arena.v (extracted) vs util::string_pool", "word": line_of(ws[i])[:200] if i < len(ws) else "readback",
                                    "impl": a[:300], "model": b[:300]}, no_input=True)
-    if coq_failed and not keys:
-        res.violation("coq:Properties_C03.v", "proof obligation no longer checks",
-                      {"theorem_file": "Properties_C03.v", "error": coq_error_excerpt(out, "Properties_C03.v")}, no_input=True)
-    res.coverage.update({
-        "evaluations": len(ws), "distinct_nontrivial": len([k for k in first if (k[0] == "G" or len(k[1]) > 0)]),
-        "rule": "word stream: every length 0..41 and around the 8-byte inline and 16-byte granule boundaries; all 256 byte values, embedded NULs; "
-                "one-byte neighbours; every reserved word with prefix/extension/edit near misses; seeded short words with 40% repeats; generated big "
-                "words crossing pool capacity and the oversize path; repeats after pool roll-over; families of distinct words with EQUAL std::hash codes "
-                "(different lengths, strict prefixes of one another, equal lengths), each interned twice. distinct non-trivial = distinct non-empty contents",
-        "samples": [line_of(w)[:120] for w in (ws[5], ws[60], ws[len(ws) // 2], ws[-5])],
-        "traces_validated_against_impl": min(len(il), len(ml)),
-        "input_distribution": {"length_histogram_top": {str(k): v for k, v in sorted(lens.items(), key=lambda kv: -kv[1])[:12]},
-                               "max_length": max(lens), "reserved_words": len(known), "total_words": len(ws),
-                               "equal_hash_words": hnote},
-        "model_branch_tags_hit": tags.split(","),
-    })
-    want = {"empty", "reserved", "hit", "miss", "miss-collide"}
-    if not want <= set(tags.split(",")):
-        res.notes.append("generator adequacy: intern branches never hit in the model: %s" % sorted(want - set(tags.split(","))))
-    res.assumptions += ["std::hash is an arbitrary function (the theorems quantify over every hash; the model run uses a deliberately weak one)",
-                        "real memory effects of std::copy are observed through ASan only"]
+    shared["n"] += len(ws)
+    shared["first_n"] += len([k for k in first if (k[0] == "G" or len(k[1]) > 0)])
+    shared["validated"] += min(len(il), len(ml))
+    shared["tags"].update(t for t in tags.split(",") if t)
